@@ -357,6 +357,27 @@ class Cut:
         le = len(self.text) if le < 0 else le
         self.text = self.text[:le + 1] + ins.rstrip() + "\n" + self.text[le + 1:]
 
+    def after_stmt(self, pattern, ins, nth=1):
+        """Insert after the end (`;` at nesting depth 0) of the statement that starts at the nth match."""
+        x = self._find(pattern, nth, "after_stmt")
+        m = self._masked()
+        depth = 0
+        j = x.start()
+        while j < len(m):
+            ch = m[j]
+            if ch in "([{":
+                depth += 1
+            elif ch in ")]}":
+                depth -= 1
+                if depth < 0:
+                    raise Undecided("%s: statement at /%s/ is not terminated" % (self.desc, pattern))
+            elif ch == ";" and depth == 0:
+                break
+            j += 1
+        if j >= len(m):
+            raise Undecided("%s: statement at /%s/ has no end" % (self.desc, pattern))
+        self.text = self.text[:j + 1] + "\n" + ins.rstrip() + "\n" + self.text[j + 1:]
+
     def all_before(self, pattern, ins, expect=None):
         """Insert before *every* line matching pattern (hint placement robust to edits)."""
         m = self._masked()
